@@ -92,6 +92,8 @@ def run(ctx):
                        "non-trivial = the request line on a shape with >= 2 listed fields; distinct by (shape s-expression, request)")
     ctx.assumptions += ["gc/amd64 struct layout and reflect's field description are modelled (Model/Layout), validated against unsafe.Sizeof/Alignof/Offsetof on every generated shape",
                         "type identity (String()== && AssignableTo) is equality of canonical GoType descriptions; the generator never prints two distinct types identically"]
+    S.apply_replay(ctx)
+    S.regenerate(ctx)
     ctx.prove()
     if ctx.thorough():
         ctx.leanchecker()
